@@ -11,6 +11,24 @@
 #endif
 extern "C" { ELEM g_mem[MEMSZ]; }
 constexpr int D = DIM;
+// value category of the object the operation is called on (each operation has &, const& and && overloads): -DVCAT=0 mutable lvalue, 1 const lvalue, 2 rvalue
+#ifndef VCAT
+#define VCAT 0
+#endif
+#include <utility>
+#if VCAT == 0
+#define V(v) (v)
+#elif VCAT == 1
+#define V(v) (std::as_const(v))
+#else
+#define V(v) (std::move(v))
+#endif
+// the const& overloads of strided / dropped / taked / reversed are ill-formed for D > 1 at the pinned commit (they return a mutable view type): mutable lvalue there
+#if VCAT == 1 && DIM >= 2
+#define VX(v) (v)
+#else
+#define VX(v) V(v)
+#endif
 
 template<int E> static Spec<E - 1> drop_dim0(Spec<E> const& s) {
   Spec<E - 1> m{};
@@ -26,7 +44,7 @@ VF_HARNESS(index) {   // v[i] : drop dim 0, origin += (i - first0)*stride0
   auto v = view_of<D>(s, g_mem);
   L i = vf_nondet_long(); vf_assume(s.d[0].first <= i && i < s.d[0].first + s.d[0].size);
   Spec<D - 1> m = drop_dim0(s); m.origin = s.origin + (i - s.d[0].first) * s.d[0].stride;
-  check_view<D - 1>(v[i], m);
+  check_view<D - 1>(V(v)[i], m);
   vf_reach("index");
 }
 #else
@@ -48,7 +66,7 @@ VF_HARNESS(identity) {   // the arbitrary view itself satisfies the observers (b
   Spec<D> s = arbitrary_spec<D>(0, FB);
   auto v = view_of<D>(s, g_mem);
   check_view<D>(v, s);
-  check_view<D>(v(), s);
+  check_view<D>(V(v)(), s);
   vf_reach("identity");
 }
 
@@ -58,7 +76,7 @@ VF_HARNESS(sliced) {   // sliced(a,b): size0 = b-a, index base kept (first0), or
   L a = vf_nondet_long(); L b = vf_nondet_long();
   vf_assume(s.d[0].first <= a && a <= b && b <= s.d[0].first + s.d[0].size);
   Spec<D> m = s; m.d[0].size = b - a; m.origin = s.origin + (a - s.d[0].first) * s.d[0].stride;
-  check_view<D>(v.sliced(a, b), m);
+  check_view<D>(V(v).sliced(a, b), m);
   vf_reach("sliced");
 }
 
@@ -69,7 +87,7 @@ VF_HARNESS(sliced_strided) {   // sliced(a,b,st) == sliced(a,b).strided(st)
   vf_assume(s.d[0].first <= a && a < b && b <= s.d[0].first + s.d[0].size);
   vf_assume(1 <= st && st <= NB && (b - a) % st == 0 && s.d[0].first % st == 0);
   Spec<D> m = s; m.d[0].size = (b - a) / st; m.d[0].first = s.d[0].first / st; m.d[0].stride = s.d[0].stride * st; m.origin = s.origin + (a - s.d[0].first) * s.d[0].stride;
-  check_view<D>(v.sliced(a, b, st), m);
+  check_view<D>(V(v).sliced(a, b, st), m);
   vf_reach("sliced_strided");
 }
 
@@ -79,7 +97,7 @@ VF_HARNESS(strided) {   // strided(st), st | size0 (and st | first0 for re-based
   L st = vf_nondet_long();
   vf_assume(1 <= st && st <= NB && s.d[0].size % st == 0 && s.d[0].first % st == 0);
   Spec<D> m = s; m.d[0].size = s.d[0].size / st; m.d[0].first = s.d[0].first / st; m.d[0].stride = s.d[0].stride * st;
-  check_view<D>(v.strided(st), m);
+  check_view<D>(VX(v).strided(st), m);
   vf_reach("strided");
 }
 
@@ -88,7 +106,7 @@ VF_HARNESS(dropped) {   // dropped(n): size0 -= n, origin += n*stride0, index ba
   auto v = view_of<D>(s, g_mem);
   L n = vf_nondet_long(); vf_assume(0 <= n && n <= s.d[0].size);
   Spec<D> m = s; m.d[0].size = s.d[0].size - n; m.origin = s.origin + n * s.d[0].stride;
-  check_view<D>(v.dropped(n), m);
+  check_view<D>(VX(v).dropped(n), m);
   vf_reach("dropped");
 }
 
@@ -97,7 +115,7 @@ VF_HARNESS(taked) {   // taked(n): size0 = n
   auto v = view_of<D>(s, g_mem);
   L n = vf_nondet_long(); vf_assume(0 <= n && n <= s.d[0].size);
   Spec<D> m = s; m.d[0].size = n;
-  check_view<D>(v.taked(n), m);
+  check_view<D>(VX(v).taked(n), m);
   vf_reach("taked");
 }
 
@@ -107,7 +125,7 @@ VF_HARNESS(rotated) {   // rotated: dims shift left (0 <- 1 <- ... <- D-1 <- 0)
   Spec<D> m = s;
 #pragma unroll
   for(int k = 0; k < D; ++k) m.d[k] = s.d[(k + 1) % D];
-  check_view<D>(v.rotated(), m);
+  check_view<D>(V(v).rotated(), m);
   vf_reach("rotated");
 }
 
@@ -117,7 +135,7 @@ VF_HARNESS(unrotated) {   // unrotated: dims shift right
   Spec<D> m = s;
 #pragma unroll
   for(int k = 0; k < D; ++k) m.d[(k + 1) % D] = s.d[k];
-  check_view<D>(v.unrotated(), m);
+  check_view<D>(V(v).unrotated(), m);
   vf_reach("unrotated");
 }
 
@@ -127,7 +145,7 @@ VF_HARNESS(reversed) {   // reversed: order of dims reversed
   Spec<D> m = s;
 #pragma unroll
   for(int k = 0; k < D; ++k) m.d[k] = s.d[D - 1 - k];
-  check_view<D>(v.reversed(), m);
+  check_view<D>(VX(v).reversed(), m);
   vf_reach("reversed");
 }
 
@@ -141,7 +159,7 @@ VF_HARNESS(partitioned) {   // partitioned(n), n | size0: dim0 -> (n, size0/n) w
 #pragma unroll
   for(int k = 1; k < D; ++k) m.d[k + 1] = s.d[k];
   m.origin = s.origin;
-  check_view<D + 1>(v.partitioned(n), m);
+  check_view<D + 1>(V(v).partitioned(n), m);
   vf_reach("partitioned");
 }
 
@@ -155,7 +173,7 @@ VF_HARNESS(chunked) {   // chunked(c), c | size0: == partitioned(size0/c)
 #pragma unroll
   for(int k = 1; k < D; ++k) m.d[k + 1] = s.d[k];
   m.origin = s.origin;
-  check_view<D + 1>(v.chunked(c), m);
+  check_view<D + 1>(V(v).chunked(c), m);
   vf_reach("chunked");
 }
 
@@ -173,7 +191,7 @@ VF_HARNESS(transposed) {   // transposed: dims 0 and 1 swapped
   Spec<D> s = arbitrary_spec<D>(0, FB);
   auto v = view_of<D>(s, g_mem);
   Spec<D> m = s; m.d[0] = s.d[1]; m.d[1] = s.d[0];
-  check_view<D>(v.transposed(), m);
+  check_view<D>(V(v).transposed(), m);
   vf_reach("transposed");
 }
 
@@ -185,7 +203,7 @@ VF_HARNESS(diagonal) {   // diagonal (zero-based dims 0,1): one dim of size min(
 #pragma unroll
   for(int k = 2; k < D; ++k) m.d[k - 1] = s.d[k];
   m.origin = s.origin;
-  check_view<D - 1>(v.diagonal(), m);
+  check_view<D - 1>(V(v).diagonal(), m);
   vf_reach("diagonal");
 }
 
